@@ -158,7 +158,7 @@ pub fn generate(seed: u64, w: &World, with_big: bool, with_stalls: bool) -> Valu
     let output = if rng.chance(1, 4) {
         Value::Null
     } else {
-        json!(*rng.pick(&["absent", "text", "old-schema", "long-text", "text", "stale-same-data"]))
+        json!(*rng.pick(&["absent", "text", "old-schema", "long-text", "text", "stale-same-data", "not-utf8"]))
     };
     let path = *rng.pick(&["/graphql", "/", "/api/v1/graphql?x=1&y=two", "/graphql/", "/v1/graphql;v=1", "/~user/gql", "/with%20space/graphql", "/graphql?query=%7B%7D&a=b,c"]);
     let usable: Vec<&Fixture> = w.fixtures.iter().filter(|f| !f.big || (with_big && seed % 8 == 0) || seed % 64 == 0).collect();
@@ -339,7 +339,9 @@ pub fn body_bytes(spec: &Value, served_json: &dyn Fn(&Value) -> Vec<u8>) -> Vec<
         "file" => served_json(spec),
         "sized" => {
             let boundary = spec["boundary"].as_u64().unwrap_or(8192) as usize;
-            let total = (boundary as i64 + spec["delta"].as_i64().unwrap_or(0)) as usize;
+            let mb = spec["multibyte"].as_bool().unwrap_or(false);
+            // (with a straddling character the body has to extend a little beyond the boundary)
+            let total = (boundary as i64 + spec["delta"].as_i64().unwrap_or(0) + if mb { 16 } else { 0 }) as usize;
             // {"p":"<filler>"} has 8 bytes of framing
             let mut filler = vec![b'a'; total.saturating_sub(8)];
             if spec["multibyte"].as_bool().unwrap_or(false) && filler.len() > 8 {
